@@ -33,6 +33,12 @@ func checkC03(ctx *Ctx) {
 		ctx.SetCurrent(fmt.Sprintf("C03 round trip %d seed %d", i, ctx.Seed))
 		c03RoundTrip(ctx, i)
 	}
+	for i := 0; i < ctx.N(48, 480); i++ {
+		if ctx.Mine(i) {
+			ctx.SetCurrent(fmt.Sprintf("C03 one-instant %d seed %d", i, ctx.Seed))
+			c03Instant(ctx, i)
+		}
+	}
 	cases := 0
 	for _, thr := range []uint64{1, 5, 50} {
 		for _, extra := range []int{0, 1, int(thr) + 3} {
@@ -42,11 +48,19 @@ func checkC03(ctx *Ctx) {
 				}
 				if ctx.Mine(cases) {
 					ctx.SetCurrent(fmt.Sprintf("C03 auto trigger threshold %d extra %d spread %v", thr, extra, spread))
-					c03Auto(ctx, thr, int(thr)+extra, spread)
+					c03Auto(ctx, thr, int(thr)+extra, spread, false)
 				}
 				cases++
 			}
 		}
+	}
+	// writes that arrive while an automatic snapshot is being written count towards the next one
+	for _, thr := range []uint64{1, 5, 50} {
+		if ctx.Mine(cases) {
+			ctx.SetCurrent(fmt.Sprintf("C03 auto trigger threshold %d, threshold writes during the snapshot", thr))
+			c03Auto(ctx, thr, int(thr), false, true)
+		}
+		cases++
 	}
 }
 
@@ -193,23 +207,46 @@ func indexOf(s, sub string) int {
 // single-key writes an automatic snapshot must exist within a few ticker fires.
 // With spread, the writes are issued in groups smaller than the threshold, each group followed by an
 // observed ticker fire, so the threshold is reached by accumulation over several intervals.
-func c03Auto(ctx *Ctx, thr uint64, writes int, spread bool) {
+func c03Auto(ctx *Ctx, thr uint64, writes int, spread bool, during bool) {
 	root := mkScratch("c03auto")
 	defer os.RemoveAll(root)
 	dir := filepath.Join(root, "data")
 	_ = os.MkdirAll(dir, 0o755)
 	clk := NewVClock()
-	var ticks, ends atomic.Int64
+	// Only the ticks of THIS instance's engine count: the ticker goroutine of an engine is never stopped, so
+	// the engines of earlier cases of this process keep ticking (the event carries the engine's directory).
+	var ticks, ends, dueRun, restRun atomic.Int64
 	var armed atomic.Bool
+	var duringOnce sync.Once
+	atCopy, copyGo := make(chan struct{}, 1), make(chan struct{})
 	setHook(func(name string, args ...interface{}) {
 		if !armed.Load() {
 			return
 		}
 		switch name {
 		case "snap.tick":
+			if len(args) < 3 {
+				return
+			}
+			if d, _ := args[2].(string); d != dir {
+				return
+			}
+			cnt, _ := args[0].(uint64)
+			th, _ := args[1].(uint64)
+			if cnt >= th {
+				dueRun.Add(1)
+				restRun.Store(0)
+			} else {
+				restRun.Add(1)
+				dueRun.Store(0)
+			}
 			ticks.Add(1)
 		case "snap.end":
 			ends.Add(1)
+		case "snap.state_copied":
+			if during {
+				duringOnce.Do(func() { atCopy <- struct{}{}; <-copyGo })
+			}
 		}
 	})
 	defer setHook(nil)
@@ -226,8 +263,16 @@ func c03Auto(ctx *Ctx, thr uint64, writes int, spread bool) {
 		}
 		armed.Store(true)
 	}
+	// with spread, every third case reuses a few key names, so that most writes replace a value by one of
+	// the same size (a write is a write, whether or not it changes the size of the dataset)
+	distinct := writes
+	if spread && (writes+int(thr))%3 == 0 {
+		distinct = 3
+	}
+	var states []map[int]map[string]string // dataset after each write
 	for w := 0; w < writes; w++ {
-		in.Do("SET", fmt.Sprintf("k%d", w), "v")
+		in.Do("SET", fmt.Sprintf("k%d", w%distinct), fmt.Sprintf("v%04d", w))
+		states = append(states, CanonDump(in.S.VerifDump(), clk.NowNs()))
 		if spread && (w+1)%group == 0 && w+1 < writes {
 			// wait for the next ticker fire before the next group
 			t0 := ticks.Load()
@@ -242,22 +287,52 @@ func c03Auto(ctx *Ctx, thr uint64, writes int, spread bool) {
 			}
 		}
 	}
+	if during {
+		// the first automatic snapshot is held right after its state copy while `thr` further writes are
+		// acknowledged; they are not in that snapshot, so they are due for the next one
+		armed.Store(true)
+		select {
+		case <-atCopy:
+			for w := writes; w < writes+int(thr); w++ {
+				in.Do("SET", fmt.Sprintf("k%d", w), fmt.Sprintf("v%04d", w))
+				states = append(states, CanonDump(in.S.VerifDump(), clk.NowNs()))
+			}
+			writes += int(thr)
+			close(copyGo)
+		case <-time.After(60 * time.Second):
+			close(copyGo)
+			ctx.Inconclusive("auto-trigger: no automatic snapshot reached its state copy within the watchdog")
+			in.Close()
+			return
+		}
+	}
 	want := CanonDump(in.S.VerifDump(), clk.NowNs())
 	ticks.Store(0)
+	dueRun.Store(0)
+	restRun.Store(0)
 	armed.Store(true)
-	deadline := time.Now().Add(20 * time.Second)
-	for ticks.Load() < 4 && time.Now().Before(deadline) {
+	// The ticker goroutine takes a due snapshot synchronously, so a later tick of the same engine means the
+	// earlier tick's snapshot is finished. The instance is at rest when two consecutive ticks found nothing
+	// due; a snapshot that is due at twelve consecutive ticks and never taken is the failure. No elapsed
+	// time decides anything; the watchdog makes the case inconclusive.
+	deadline := time.Now().Add(90 * time.Second)
+	for restRun.Load() < 2 && dueRun.Load() < 12 && time.Now().Before(deadline) {
 		time.Sleep(5 * time.Millisecond)
 	}
 	armed.Store(false)
 	ctx.Eval(1)
-	ctx.Class(fmt.Sprintf("auto|threshold=%d|writes=%d|spread=%v", thr, writes, spread))
-	if ticks.Load() < 4 {
-		ctx.Inconclusive("auto-trigger: fewer than 4 ticks observed within the watchdog")
+	ctx.Class(fmt.Sprintf("auto|threshold=%d|writes=%d|spread=%v|overwrites=%v|writes-during-snapshot=%v", thr, writes, spread, distinct < writes, during))
+	if restRun.Load() < 2 && dueRun.Load() < 12 {
+		ctx.Inconclusive("auto-trigger: the instance did not come to rest within the watchdog")
 		in.Close()
 		return
 	}
-	time.Sleep(30 * time.Millisecond) // let a snapshot started by the last observed tick finish
+	if dueRun.Load() >= 12 {
+		ctx.Violate(Violation{Kind: "auto_trigger", Lane: "auto", What: fmt.Sprintf("threshold %d, %d writes: the write count was at or above the threshold at %d consecutive ticker fires of this server and the counter never came down (no snapshot was completed)", thr, writes, dueRun.Load()),
+			Case: map[string]interface{}{"threshold": thr, "writes": writes, "interval_ms": 25, "last_save": lastSave(in)}, Key: "c03|auto|due-never-taken"})
+		in.Close()
+		return
+	}
 	ls := lastSave(in)
 	in.Close()
 	c := map[string]interface{}{"threshold": thr, "writes": writes, "ticks_observed": ticks.Load(), "interval_ms": 25, "writes_spread_over_intervals": spread}
@@ -269,28 +344,160 @@ func c03Auto(ctx *Ctx, thr uint64, writes int, spread bool) {
 	d, rd, rerr := restoreSnapDump(dir, clk, nil)
 	os.RemoveAll(rd.dir)
 	// A ticker fire in the middle of the writes may already have found the threshold reached: the latest
-	// snapshot then holds a prefix k0..k(j-1) of the writes with j >= threshold, and fewer than
+	// snapshot then holds the dataset after the first j writes with j >= threshold, and fewer than
 	// threshold writes came after it (or another snapshot was due).
 	okPrefix := false
 	if rerr == nil {
-		j := countKeys(d)
-		pre := map[int]map[string]string{}
-		for k, v := range want[0] {
-			var idx int
-			fmt.Sscanf(k, "k%d", &idx)
-			if idx < j {
-				if pre[0] == nil {
-					pre[0] = map[string]string{}
-				}
-				pre[0][k] = v
+		for j := len(states); j >= 1; j-- {
+			if canonEq(states[j-1], d) {
+				okPrefix = uint64(j) >= thr && uint64(writes-j) < thr
+				c["restored_state_after_write"] = j
+				break
 			}
 		}
-		okPrefix = uint64(j) >= thr && uint64(writes-j) < thr && canonEq(pre, d)
-		c["restored_prefix_length"] = j
 	}
+	c["distinct_keys"] = distinct
+	c["threshold_writes_acknowledged_during_the_first_snapshot"] = during
 	if rerr != nil || !okPrefix {
 		ctx.Violate(Violation{Kind: "auto_trigger", Lane: "auto", What: fmt.Sprintf("the latest automatic snapshot does not restore a state of the dataset at which a snapshot was due and after which none was: %v %s", rerr, model.DiffCanon(want, d)),
 			Case: c, Key: "c03|auto|restore"})
 	}
 	ctx.Sample("auto", c)
+}
+
+
+// c03Instant: a snapshot captures the dataset "as of one instant", also when clients write while it is
+// being taken. The hook handler lets a client run in-place updates of every stored collection (LSET, LREM,
+// RPUSH, HSET of an existing field, HDEL, SADD, SREM, ZADD of an existing member, ZREM, APPEND) and create a
+// marker key at the point where the snapshot has copied the state but not yet written it (a schedule any
+// client can produce: nothing is locked there). Restoring the snapshot must give the dataset as it was
+// before those writes, or as it was after all of them - never a mixture.
+func c03Instant(ctx *Ctx, i int) {
+	r := rand.New(rand.NewSource(ctx.Seed*5_000_077 + int64(i)))
+	root := mkScratch("c03i")
+	defer os.RemoveAll(root)
+	dir := filepath.Join(root, "data")
+	_ = os.MkdirAll(dir, 0o755)
+	clk := NewVClock()
+	run, err := newPRunner(dir, "no", false, false, clk)
+	if err != nil {
+		ctx.Broken("C03: cannot start instance: " + err.Error())
+		return
+	}
+	defer run.close()
+	in := run.in
+	script := populate(run, r, 10+r.Intn(25), false)
+	// collections built element by element, so that their backing storage has spare room
+	_ = in.S.SelectDB(0)
+	for e := 0; e < 5; e++ {
+		in.Do("RPUSH", "inst:l", fmt.Sprintf("e%d", e))
+		in.Do("HSET", "inst:h", fmt.Sprintf("f%d", e), "v")
+		in.Do("SADD", "inst:s", fmt.Sprintf("m%d", e))
+		in.Do("ZADD", "inst:z", fmt.Sprint(e), fmt.Sprintf("m%d", e))
+	}
+	in.Do("RPOP", "inst:l")
+	clk.Advance(int64(1+r.Intn(2000)) * 1e6)
+	before := in.S.VerifDump()
+	d0 := CanonDump(before, clk.NowNs())
+	var writes []string
+	var once sync.Once
+	done := make(chan struct{}, 1)
+	mutate := func() {
+		for db, keys := range before.DBs {
+			_ = in.S.SelectDB(db)
+			for k, v := range keys {
+				var cmds [][]string
+				switch v.Type {
+				case "list":
+					if len(v.List) > 0 {
+						cmds = [][]string{{"LSET", k, "0", "CHANGED"}, {"LREM", k, "0", v.List[len(v.List)-1]}}
+					}
+					cmds = append(cmds, []string{"RPUSH", k, "NEW"})
+				case "hash":
+					for f := range v.Hash {
+						cmds = append(cmds, []string{"HSET", k, f, "CHANGED"})
+						break
+					}
+					cmds = append(cmds, []string{"HSET", k, "NEWFIELD", "x"})
+				case "set":
+					if len(v.Set) > 0 {
+						cmds = append(cmds, []string{"SREM", k, v.Set[0]})
+					}
+					cmds = append(cmds, []string{"SADD", k, "NEWMEMBER"})
+				case "zset":
+					if len(v.ZSet) > 0 {
+						cmds = append(cmds, []string{"ZADD", k, "12345", v.ZSet[0].Member})
+					}
+					cmds = append(cmds, []string{"ZADD", k, "-7", "NEWMEMBER"})
+				case "string":
+					cmds = append(cmds, []string{"APPEND", k, "+changed"})
+				case "int":
+					cmds = append(cmds, []string{"INCR", k})
+				}
+				for _, c := range cmds {
+					in.Do(c...)
+					writes = append(writes, fmt.Sprintf("[db %d] %s", db, Step{Argv: c}.String()))
+				}
+			}
+		}
+		_ = in.S.SelectDB(0)
+		in.Do("SET", "inst:marker", "1")
+	}
+	async := i%3 == 1
+	setHook(func(name string, args ...interface{}) {
+		switch name {
+		case "snap.state_copied":
+			once.Do(mutate)
+		case "snap.end":
+			select {
+			case done <- struct{}{}:
+			default:
+			}
+		}
+	})
+	mode := "sync"
+	var res string
+	if async {
+		mode = "SAVE"
+		v, _, crash := in.Do("SAVE")
+		if crash != "" || v.IsError() {
+			res = "err: " + v.String() + crash
+		} else {
+			select {
+			case <-done:
+				res = "ok"
+			case <-time.After(60 * time.Second):
+				setHook(nil)
+				ctx.Inconclusive("one-instant lane: SAVE did not finish within the watchdog")
+				return
+			}
+		}
+	} else {
+		res, _ = run.exec(pOp{Caller: "emb", Argv: []string{"@SNAP"}})
+	}
+	setHook(nil)
+	if res != "ok" || len(writes) == 0 {
+		ctx.Count("one_instant_not_taken", 1)
+		return
+	}
+	time.Sleep(2 * time.Millisecond)
+	d1 := CanonDump(in.S.VerifDump(), clk.NowNs())
+	d, rd, rerr := restoreSnapDump(dir, clk, nil)
+	os.RemoveAll(rd.dir)
+	ctx.Eval(1)
+	ctx.Count("one_instant_writes_during_snapshot", int64(len(writes)))
+	ctx.Class(fmt.Sprintf("one-instant|%s|%s", mode, typesPresent(d0)))
+	if rerr != nil {
+		ctx.Violate(Violation{Kind: "restore", Lane: "one-instant", What: "restore of a snapshot taken while a client was writing failed: " + rerr.Error(),
+			Case: map[string]interface{}{"script": script, "writes_during_snapshot": writes}, Key: "c03|instant|restore-failed"})
+		return
+	}
+	if !canonEq(d0, d) && !canonEq(d1, d) {
+		ctx.Violate(Violation{Kind: "mixture", Lane: "one-instant",
+			What: fmt.Sprintf("a client ran %d in-place updates between the snapshot's state copy and its write-out (%s); the restored dataset is neither the dataset before them nor the dataset after all of them: against the dataset before: %s", len(writes), mode, trunc(model.DiffCanon(d0, d), 500)),
+			Case: map[string]interface{}{"script": script, "writes_during_snapshot": writes}, Key: "c03|instant|mixture"})
+	}
+	if i == 1 {
+		ctx.Sample("one-instant", map[string]interface{}{"mode": mode, "writes_during_snapshot": head(writes, 12)})
+	}
 }
